@@ -347,6 +347,20 @@ def run(ctx, rep):
             # outside the loop that contains the recursive calls
             if ahead and not (v == "Threshold" and not f.in_loop(cs.bb)):
                 late.append(cs)
+        # ... and unconditionally: a comparison/reordering of the children that can be reached on a path avoiding a child's
+        # recursive sort (`if let Some(l) = Arc::get_mut(left) { l.sort() }` skips a child that has another owner)
+        skipped = []
+        if v != "Threshold":
+            for cs in orders + cmps:
+                for rc in rec_calls:
+                    if rc.bb in region and not f.in_loop(rc.bb) and rc.bb != cs.bb and cs.bb in f.reachable(rc.bb) and not f.dominates(rc.bb, cs.bb):
+                        skipped.append((rc, cs))
+        if skipped and not missing and not late:
+            rc, cs = skipped[0]
+            rep.violation("C16.sort", "arm:%s:conditional" % v, "in the %s arm the recursive sort of a child (%s) can be bypassed on the way to the "
+                          "comparison/reordering `%s`: a child that is skipped (for instance an Arc with a second owner under Arc::get_mut) stays "
+                          "unsorted, so equal policies keep different forms" % (v, show(T.operand(rc.args[0]))[:80], cs.name), rc.where())
+            continue
         if missing:
             rep.violation("C16.sort", "arm:%s:children" % v, "children %s of %s are not sorted recursively" % (missing, v), f.where())
         elif not orders:
